@@ -332,7 +332,8 @@ def ledger_episode(ctx, props, chain=False, discrete=False, prebuilt=None):
                      and abs(float(tc["Spread"].iloc[j]) - sum(abs(t.quantity) * t.contract.multiplier * (t.ask_price - t.bid_price) for t in trk[j].trades)) <= 1e-9 * max(1.0, abs(float(tc["Spread"].iloc[j])))
                      for j in range(len(trk)))
             ctx.check("C07:transaction-costs-series", ok)
-        if isinstance(rw, RewardSimpleReturn) and not cfg["userate"] and L == 0 and nlv_end is not None and outs:
+        if isinstance(rw, RewardSimpleReturn) and led.interest == 0.0 and L == 0 and nlv_end is not None and outs:
+            # ("when no interest accrues": a zero rate is not enough - a markup charges borrowed cash)
             ctx.check("C07:simple-returns-compound", abs(simple_prod - nlv_end / cash0) <= 1e-9 * max(1.0, led.scale() / cash0) * len(outs),
                       product=simple_prod, ratio=nlv_end / cash0)
             ctx.cat("compound-checked")
